@@ -73,7 +73,7 @@ def run(tier):
         "distinct_nontrivial": len(distinct),
         "rule": "edit scenario = initial message (11 model messages incl. SOA/MX/CNAME/TXT records, root names, partially compressed owner names, 63-octet labels, 34- and "
                 "127-label names, 255-octet names; wire bytes produced by the TLA+ reference encoder with and without "
-                "compression) + every sequence of %d insertions of 16 record kinds into any of the 4 sections; non-trivial "
+                "compression) + every sequence of %d insertions of 16 record kinds into any of the 4 sections (a third insertion: 3 record kinds); non-trivial "
                 "= an insertion in front of a non-empty later section.  fault scenario = every truncation, every single-"
                 "byte replacement by 10 values at every position, pointer loops / out-of-range / into-header pointers, "
                 "count lies on the 5 smaller messages" % (2 if quick else 3),
